@@ -1281,6 +1281,8 @@ impl WalkParallel {
         let quit_now = Arc::new(AtomicBool::new(false));
         let active_workers = Arc::new(AtomicUsize::new(threads));
         let stacks = Stack::new_for_each_thread(threads, stack);
+        #[cfg(ripgrep_verif)]
+        crate::verif::event(crate::verif::Site::WalkBegin, threads);
         std::thread::scope(|s| {
             let handles: Vec<_> = stacks
                 .into_iter()
@@ -1301,6 +1303,8 @@ impl WalkParallel {
                 handle.join().unwrap();
             }
         });
+        #[cfg(ripgrep_verif)]
+        crate::verif::event(crate::verif::Site::WalkEnd, 0);
     }
 
     fn threads(&self) -> usize {
@@ -1386,6 +1390,16 @@ impl Work {
     }
 }
 
+/// Yield point for the verification scheduler, one per steal attempt. An
+/// empty function unless built with `--cfg ripgrep_verif`.
+#[cfg(ripgrep_verif)]
+fn verif_steal_one() {
+    crate::verif::event(crate::verif::Site::StealOne, 0);
+}
+#[cfg(not(ripgrep_verif))]
+#[inline(always)]
+fn verif_steal_one() {}
+
 /// A work-stealing stack.
 #[derive(Debug)]
 struct Stack {
@@ -1429,11 +1443,15 @@ impl Stack {
 
     /// Push a message.
     fn push(&self, msg: Message) {
+        #[cfg(ripgrep_verif)]
+        crate::verif::event(crate::verif::Site::Push, self.index);
         self.deque.push(msg);
     }
 
     /// Pop a message.
     fn pop(&self) -> Option<Message> {
+        #[cfg(ripgrep_verif)]
+        crate::verif::event(crate::verif::Site::Pop, self.index);
         self.deque.pop().or_else(|| self.steal())
     }
 
@@ -1448,6 +1466,7 @@ impl Stack {
         right
             .iter()
             .chain(left.iter())
+            .inspect(|_| verif_steal_one())
             .map(|s| s.steal_batch_and_pop(&self.deque))
             .find_map(|s| s.success())
     }
@@ -1496,11 +1515,18 @@ impl<'s> Worker<'s> {
     /// The worker will call the caller's callback for all entries that aren't
     /// skipped by the ignore matcher.
     fn run(mut self) {
+        #[cfg(ripgrep_verif)]
+        crate::verif::event(
+            crate::verif::Site::WorkerBegin,
+            self.stack.index,
+        );
         while let Some(work) = self.get_work() {
             if let WalkState::Quit = self.run_one(work) {
                 self.quit_now();
             }
         }
+        #[cfg(ripgrep_verif)]
+        crate::verif::event(crate::verif::Site::WorkerEnd, 0);
     }
 
     fn run_one(&mut self, mut work: Work) -> WalkState {
@@ -1558,6 +1584,8 @@ impl<'s> Worker<'s> {
         if self.max_depth.map_or(false, |max| depth >= max) {
             return WalkState::Skip;
         }
+        #[cfg(ripgrep_verif)]
+        let readdir = crate::verif::readdir(readdir);
         for result in readdir {
             let state = self.generate_work(
                 &work.ignore,
@@ -1702,6 +1730,13 @@ impl<'s> Worker<'s> {
                         // CPU waiting, we let the thread sleep for a bit. In
                         // general, this tends to only occur once the search is
                         // approaching termination.
+                        #[cfg(ripgrep_verif)]
+                        if crate::verif::event(
+                            crate::verif::Site::IdleSleep,
+                            0,
+                        ) {
+                            continue;
+                        }
                         let dur = std::time::Duration::from_millis(1);
                         std::thread::sleep(dur);
                     }
@@ -1712,11 +1747,15 @@ impl<'s> Worker<'s> {
 
     /// Indicates that all workers should quit immediately.
     fn quit_now(&self) {
+        #[cfg(ripgrep_verif)]
+        crate::verif::event(crate::verif::Site::QuitNow, 0);
         self.quit_now.store(true, AtomicOrdering::SeqCst);
     }
 
     /// Returns true if this worker should quit immediately.
     fn is_quit_now(&self) -> bool {
+        #[cfg(ripgrep_verif)]
+        crate::verif::event(crate::verif::Site::IsQuitNow, 0);
         self.quit_now.load(AtomicOrdering::SeqCst)
     }
 
@@ -1737,11 +1776,15 @@ impl<'s> Worker<'s> {
 
     /// Deactivates a worker and returns the number of currently active workers.
     fn deactivate_worker(&self) -> usize {
+        #[cfg(ripgrep_verif)]
+        crate::verif::event(crate::verif::Site::Deactivate, 0);
         self.active_workers.fetch_sub(1, AtomicOrdering::Acquire) - 1
     }
 
     /// Reactivates a worker.
     fn activate_worker(&self) {
+        #[cfg(ripgrep_verif)]
+        crate::verif::event(crate::verif::Site::Activate, 0);
         self.active_workers.fetch_add(1, AtomicOrdering::Release);
     }
 }
